@@ -196,8 +196,18 @@ func (l *limiter) requestWith(src, amount, sel int64) (int64, int64, bool, strin
 // source tokens are long and share their first 70 bytes (API keys, bearer tokens): distinct tokens are distinct sources
 var srcPrefix = strings.Repeat("apikey-", 10)
 
-func srcName(s int64) string { return fmt.Sprintf("%ss%03d", srcPrefix, s) }
+// ... except source 1, whose token is the empty string (a client that sends the identifying header without a value): a
+// source like any other
+func srcName(s int64) string {
+	if s == 1 {
+		return ""
+	}
+	return fmt.Sprintf("%ss%03d", srcPrefix, s)
+}
 func srcID(n string) int64 {
+	if n == "" {
+		return 1
+	}
 	v, _ := strconv.ParseInt(strings.TrimPrefix(n, srcPrefix)[1:], 10, 64)
 	return v
 }
